@@ -6,6 +6,7 @@
 package ref
 
 import (
+	"strings"
 	"unicode"
 
 	"verif/internal/gen"
@@ -160,6 +161,24 @@ func ItemHas(it gen.ClassItem, r rune, d Dialect) bool {
 func ClassMatch(n *gen.Node, r rune, ic bool, d Dialect) bool {
 	inner := false
 	for _, it := range n.Items {
+		if ic && it.T == "esc" && (d.RE2 || d.ECMA) && (it.Name == "D" || it.Name == "W" || it.Name == "S") {
+			// a negated dialect shorthand under IgnoreCase is the complement of the case closure of
+			// the positive class (not the closure of the complement)
+			pos := gen.ClassItem{T: "esc", Name: strings.ToLower(it.Name)}
+			if !(ItemHas(pos, r, d) || Orbit(r, func(c rune) bool { return ItemHas(pos, c, d) })) {
+				inner = true
+				break
+			}
+			continue
+		}
+		if ic && it.T == "prop" && (it.Name == "Lu" || it.Name == "Ll" || it.Name == "Lt") {
+			// under IgnoreCase the three cased-letter categories stand for all cased letters
+			if unicode.In(r, unicode.Lu, unicode.Ll, unicode.Lt) != it.Neg {
+				inner = true
+				break
+			}
+			continue
+		}
 		if ItemHas(it, r, d) {
 			inner = true
 			break
